@@ -739,6 +739,13 @@ def known_id(case, failure):
     if case["kind"] == "quotestart" and failure.startswith("texts differ") and \
             any(isq(n[0][0]) for n in _walk(case["tree"])):
         return "F31"
+    if case["kind"] == "quotestart" and failure.startswith("well-formed brace config rejected with err:ParseException"):
+        # two statements that each START with an unbalanced quote character (`'x q`): on one physical line the two quote
+        # characters pair up as a pyparsing quoted string that swallows the braces between them
+        lone = [n for n in _walk(case["tree"]) if n[0] and n[0][0][:1] in ("'", '"')
+                and " ".join(n[0]).count(n[0][0][0]) % 2 == 1]
+        if len(lone) >= 2:
+            return "F31b"
     if case["kind"] == "cmtafter" and " is r expected " in failure and \
             re.match(r"parent of line \d+ \(['\"]\s*#", failure):
         return "F32"
